@@ -25,6 +25,10 @@ type lncScen struct {
 type lncExpect struct{ s *lncrun.Session }
 
 func (x *lncExpect) check(what string, ok bool) bool {
+	// what the two clients' ConnStatus() reports at this point goes to the
+	// status log (validated against Status.tla)
+	x.s.PollStatus("c")
+	x.s.PollStatus("x")
 	x.s.Rec.Emit("expect", "what", what, "ok", b2i(ok))
 	return ok
 }
@@ -366,6 +370,7 @@ func TestC11Sessions(t *testing.T) {
 		events []trace.Event
 		desc   map[string]any
 		link   []trace.Event
+		stat   []trace.Event
 	}
 	var mu sync.Mutex
 	var outs []out
@@ -396,8 +401,9 @@ func TestC11Sessions(t *testing.T) {
 					"prepaired": b2i(sc.opts.PrePaired), "v1": b2i(sc.opts.V1 || sc.opts.SrvV1)}}, s.Rec.Events()...)
 				link := append([]trace.Event{{"ev": "reset", "op": "reset", "scen": sc.name, "rep": rep}},
 					s.LinkEvents()...)
+				stat := append([]trace.Event{{"ev": "reset", "scen": sc.name, "rep": rep}}, s.Stat.Events()...)
 				mu.Lock()
-				outs = append(outs, out{ev, map[string]any{"scen": sc.name, "rep": rep}, link})
+				outs = append(outs, out{ev, map[string]any{"scen": sc.name, "rep": rep}, link, stat})
 				mu.Unlock()
 			}()
 		}
@@ -420,5 +426,12 @@ func TestC11Sessions(t *testing.T) {
 		}
 	}
 	lf.Close()
+	writeStatus(t, filepath.Join(dir, "c11status.ndjson"), func(emit func(trace.Event)) {
+		for _, o := range outs {
+			for _, e := range o.stat {
+				emit(e)
+			}
+		}
+	})
 	ts.close(nil)
 }
